@@ -39,6 +39,9 @@ type txInfo struct {
 	facts *txFacts
 	outs  []mOut
 	spec  TxSpec
+	// nodeFee: inputs minus outputs as a verifier reading the parent ledger
+	// would compute it, for Byzantine transactions the model does not price
+	nodeFee *big.Int
 }
 
 func (s *sim) actorOf(ph common.Uint168) int {
@@ -113,6 +116,7 @@ func (s *sim) makeTx(v *view, spec TxSpec) *txInfo {
 	if len(spec.InSel) > 0 {
 		sel0 = spec.InSel[0]
 	}
+	var respent *big.Int // value behind an outpoint re-spent inside one block
 	switch spec.InKind {
 	case 0:
 		if len(spec.force) > 0 {
@@ -149,6 +153,18 @@ func (s *sim) makeTx(v *view, spec TxSpec) *txInfo {
 			return nil
 		}
 		ins = append(ins, sp[mod(sel0, len(sp))])
+	case 9: // an outpoint an earlier transaction of this same block already spends
+		if len(v.freshSpent) == 0 {
+			return nil
+		}
+		rec := v.freshSpent[mod(sel0, len(v.freshSpent))]
+		if rec.o.owner < 0 {
+			return nil
+		}
+		// spent and signed by its owner, so only the double spend is wrong with it
+		from = s.actors[rec.o.owner]
+		ins = append(ins, rec.op)
+		respent = big.NewInt(rec.o.value)
 	case 7: // an output created by an earlier transaction of the same block
 		var fr []outpoint
 		for op := range v.fresh {
@@ -164,6 +180,9 @@ func (s *sim) makeTx(v *view, spec TxSpec) *txInfo {
 	}
 	// input total as far as the view knows (spent / foreign outputs count 0 or their value)
 	inTotal := new(big.Int)
+	if respent != nil {
+		inTotal.Set(respent)
+	}
 	for _, in := range ins {
 		if o, ok := v.utxo[in]; ok {
 			inTotal.Add(inTotal, big.NewInt(o.value))
@@ -284,6 +303,13 @@ func (s *sim) makeTx(v *view, spec TxSpec) *txInfo {
 	}
 	info := &txInfo{tx: tx, facts: facts, spec: spec}
 	facts.outs = txOutValues(tx)
+	if respent != nil {
+		nf := new(big.Int).Set(inTotal)
+		for _, x := range facts.outs {
+			nf.Sub(nf, big.NewInt(x))
+		}
+		info.nodeFee = nf
+	}
 	for _, o := range tx.Outputs() {
 		info.outs = append(info.outs, mOut{ph: o.ProgramHash, owner: s.actorOf(o.ProgramHash), value: int64(o.Value), cbHeight: -1})
 	}
@@ -351,8 +377,18 @@ func (s *sim) buildBlock(parent *mBlock, bs *BlockSpec) *mBlock {
 		if label == "" {
 			applyTx(v, info.tx.Hash(), info.facts, info.outs, height)
 			fees.Add(fees, fee)
-		} else if selfOK {
-			selfOK, why = false, label
+		} else {
+			if selfOK {
+				selfOK, why = false, label
+			}
+			// A Byzantine miner prices the coinbase the way a verifier would:
+			// the fee a node would compute for this transaction if it let it
+			// through, so that nothing but the broken rule is wrong with the block.
+			if info.nodeFee != nil {
+				fees.Add(fees, info.nodeFee)
+			} else if fee != nil && fee.Sign() >= 0 {
+				fees.Add(fees, fee)
+			}
 		}
 		txs = append(txs, info.tx)
 		infos = append(infos, info)
@@ -453,7 +489,7 @@ func (s *sim) buildBlock(parent *mBlock, bs *BlockSpec) *mBlock {
 		v.txs[cbID] = height
 	}
 	v.subsidy.Add(v.subsidy, big.NewInt(int64(cfg.GetBlockReward(height))))
-	v.fresh = nil
+	v.fresh, v.freshSpent = nil, nil
 	mb.view = v
 	s.blocks = append(s.blocks, mb)
 	s.byHash[mb.hash] = mb
